@@ -80,6 +80,7 @@ classes*. For each :math:`S_m` and each :math:`i \in S_m`, we have
 
 """
 import numbers
+import operator
 from math import gcd
 import numpy as np
 from scipy import sparse
@@ -472,6 +473,9 @@ class MarkovChain:
         """
         random_state = check_random_state(random_state)
         dim = 1  # Dimension of the returned array: 1 or 2
+
+        # Plain Python int: an unsigned NumPy 0 would wrap in `ts_length-1`
+        ts_length = operator.index(ts_length)
 
         msg_out_of_range = 'index {init} is out of the state space'
 
